@@ -116,6 +116,9 @@ pub fn bounds(ctx: &Ctx) {
     let seq = ctx.pick("seq", 4); // 0 empty, 1 single, 2 constant x3, 3 three distinct values
     // deviation-counted: types, value set, overrides, per-attribute orders
     let ct = ctx.choose("coord-type", 5);
+    // Y and Z (elevation and range) may have a type of their own
+    let cty = (ct + ctx.choose("y-type-shift", 5)) % 5;
+    let ctz = (ct + ctx.choose("z-type-shift", 5)) % 5;
     let st = ctx.choose("spherical-type", 4);
     let it = ctx.choose("index-type", 3);
     let at = ctx.choose("intensity-type", 6);
@@ -129,14 +132,14 @@ pub fn bounds(ctx: &Ctx) {
 
     let mut proto: Vec<Rec> = Vec::new();
     if base != 1 {
-        for n in ["cartesianX", "cartesianY", "cartesianZ"] {
-            proto.push(rec(n, coord_type(ct)));
-        }
+        proto.push(rec("cartesianX", coord_type(ct)));
+        proto.push(rec("cartesianY", coord_type(cty)));
+        proto.push(rec("cartesianZ", coord_type(ctz)));
     }
     if base != 0 {
-        proto.push(rec("sphericalRange", coord_type(st)));
+        proto.push(rec("sphericalRange", coord_type((st + ctz) % 5)));
         proto.push(rec("sphericalAzimuth", coord_type(st)));
-        proto.push(rec("sphericalElevation", coord_type(st)));
+        proto.push(rec("sphericalElevation", coord_type((st + cty) % 4)));
     }
     if groups & 1 != 0 {
         proto.push(rec("rowIndex", idx_type(it)));
